@@ -133,6 +133,14 @@ def wire_model(prog):
                     w.append((fi, codec))
                 if nm in ("skip_field",):
                     w.append(("skip", None))
+                if od.get("trait") == SER and nm == "serialize" and b.from_expansion and kind is None and not w:
+                    # `#[serde(transparent)]`: the derive forwards to the single field's own Serialize; on the wire this
+                    # is what serialize_newtype_struct produces (formats without struct names, and serde_json)
+                    fi = field_of_block(b, bi)
+                    ga = t.get("gargs") or ()
+                    if fi is not None and ga:
+                        w.append((fi, ("plain", ty_str(ga[0]))))
+                        kind = "transparent"
                 if od.get("trait") == SE and nm == "serialize":
                     # transparent wrappers calling the element codec directly
                     ga = t.get("gargs") or ()
@@ -180,6 +188,15 @@ def wire_model(prog):
                 continue
             # visitor's visit_seq
             r = visitor_reader(prog, b)
+            if r is None and b.from_expansion and adt in prog.adts and prog.adts[adt]["kind"] == "Struct" \
+                    and len(prog.adts[adt]["variants"][0]["fields"]) == 1:
+                # `#[serde(transparent)]` on a one-field struct: the derive reads the field's own Deserialize and wraps it
+                for bi, t in calls:
+                    od = prog.defs.get(t.get("callee"), {})
+                    ga = t.get("gargs") or ()
+                    if od.get("qpath", "").endswith("Deserialize::deserialize") and ga and \
+                            ty_str(ga[0]) == ty_str(prog.adts[adt]["variants"][0]["fields"][0]["t"]):
+                        r = ("seq", [("plain", ty_str(ga[0]))], True)
             m["reader"] = r
         models[adt] = m
     return models
